@@ -1,5 +1,7 @@
 HARNESS = "c11"
 LEVEL = "translation_validation"
+STALE_RERUN = True   # every operand is also re-run as a stale external polynomial (see check; harness/c11.c re-creates it per call)
+STALE_LIMIT = 250
 """C11 case generator: root isolation under a partial assignment (also the source of C12's cases).
 Every random choice comes from the one `rng` passed in.
 
@@ -554,6 +556,131 @@ def shape_V(rng):
     return mk_case("iso", lows + [y], A, assign, extra + ["cls=V"]), "V"
 
 
+# ------------------------------------------------------------------ shape Z: a zero-valued variable above fractions
+def shape_Z(rng):
+    """rational substitution with nested denominators: a variable assigned 0 (as integer, dyadic or rational zero)
+    sits ABOVE variables with non-integral rational values in the order, and every coefficient mixes them - the
+    common-denominator multipliers of sibling coefficients have to stay consistent when a power of 0 kills a term."""
+    nlow = rng.choice([2, 2, 3])
+    idx = rng.sample(range(6), nlow + 1)
+    y = idx[-1]
+    lows = idx[:-1]
+    Y = pvar(y)
+    zero = lows[-1] if rng.random() < 0.7 else rng.choice(lows)       # mostly the variable just below y
+    fr = ["q:1/2", "q:-3/4", "q:5/3", "d:1/1", "d:-3/2", "q:-2/3", "q:7/5"]
+    assign = [(v, rng.choice(["z:0", "z:0", "q:0/1", "d:0/0"]) if v == zero else rng.choice(fr)) for v in lows]
+    Zv = pvar(zero)
+    others = [v for v in lows if v != zero]
+    def mix():
+        l = pvar(rng.choice(others))
+        k = rng.random()
+        base = rng.choice([padd(Zv, l), psub(Zv, l), padd(pmul(Zv, l), l), padd(pmul(Zv, Zv), pscale(2, l)),
+                           padd(pmul(Zv, l), pconst(rng.choice([1, -1, 2]))), pmul(padd(Zv, l), padd(Zv, pconst(1))),
+                           padd(pmul(l, l), Zv), l])
+        if len(others) > 1 and k < 0.4:
+            base = padd(base, pscale(rng.choice([1, -1, 3]), pvar(rng.choice(others))))
+        return base
+    deg = rng.choice([1, 1, 2, 2, 3])
+    A = {}
+    for k in range(deg + 1):
+        if 0 < k < deg and rng.random() < 0.3:
+            continue
+        c = mix() if (k > 0 or rng.random() < 0.5) else pconst(rng.choice([-1, 1, -2, 3]))
+        A = padd(A, pmul(c, ppow(Y, k)))
+    if pdeg(A, y) == 0:
+        A = padd(A, pmul(mix(), Y))
+    # the order: bottom first; the zero variable is never the bottom one
+    order = lows[:]
+    rng.shuffle(order)
+    if order[0] == zero:
+        order[0], order[-1] = order[-1], order[0]
+    return mk_case("iso", order + [y], A, assign, ["cls=Z"]), "Z"
+
+
+# ------------------------------------------------------------------ shape A: coefficients that nearly vanish
+def _convergents(kind):
+    """continued-fraction convergents p/q (q between 10^3 and 10^7) of sqrt2, sqrt3, cbrt2, exact integer arithmetic"""
+    from math import isqrt
+    out = []
+    if kind in (2, 3):
+        # sqrt(n): periodic continued fraction by the classical (m, d, a) recurrence
+        n = kind
+        a0 = isqrt(n)
+        m, d, a = 0, 1, a0
+        h0, h1, k0, k1 = 1, a0, 0, 1
+        while k1 < 10 ** 7:
+            m = d * a - m
+            d = (n - m * m) // d
+            a = (a0 + m) // d
+            h0, h1 = h1, a * h1 + h0
+            k0, k1 = k1, a * k1 + k0
+            if 10 ** 3 <= k1 < 10 ** 7:
+                out.append((h1, k1))
+    else:
+        # cbrt 2 by exact comparison p^3 ? 2 q^3 (Stern-Brocot walk = continued fraction)
+        from fractions import Fraction
+        lo, hi = Fraction(1), Fraction(2)
+        x_lo, x_hi = (1, 1), (2, 1)
+        # mediants
+        a, b, c, d = 1, 1, 2, 1
+        last = None
+        while True:
+            p, q = a + c, b + d
+            if q >= 10 ** 7:
+                break
+            if p ** 3 < 2 * q ** 3:
+                a, b = p, q
+                side = 0
+            else:
+                c, d = p, q
+                side = 1
+            if last is not None and side != last and q >= 10 ** 3:
+                out.append((p, q))
+            last = side
+    return out
+
+
+CONV = {}
+
+
+def shape_A(rng):
+    """near-cancellation: B = q*x - p (or p - q*x) with p/q a continued-fraction convergent of the irrational
+    value of x, |B| ~ 1e-3 .. 1e-7 with coefficients up to 1e7, used as leading coefficient, constant term or inner
+    coefficient.  The sign of such a coefficient decides the degree under the assignment, the number of roots and
+    both unbounded cells; an interval test that stops too early calls it 0."""
+    if not CONV:
+        CONV[2], CONV[3], CONV["c"] = _convergents(2), _convergents(3), _convergents("c")
+    idx = rng.sample(range(6), 2)
+    x, y = idx
+    X, Y = pvar(x), pvar(y)
+    k = rng.random()
+    if k < 0.45:
+        tok, key = "r:-2,0,1:1", 2
+    elif k < 0.8:
+        tok, key = "r:-3,0,1:1", 3
+    else:
+        tok, key = "r:-2,0,0,1:0", "c"
+    p, q = rng.choice(CONV[key])
+    B = psub(pscale(q, X), pconst(p))
+    if rng.random() < 0.5:
+        B = pscale(-1, B)
+    where = rng.choice(["lc", "lc", "lc2", "const", "inner", "prod"])
+    extra = []
+    if where == "lc":
+        A = psub(pmul(B, Y), pconst(rng.choice([1, -1, 2])))
+        extra = ["lc=1", "lin=%s;%s" % (ptext(B), ptext(psub(pmul(B, Y), A)))]
+    elif where == "lc2":
+        A = padd(pmul(B, pmul(Y, Y)), padd(Y, pconst(rng.choice([-1, 1]))))
+    elif where == "const":
+        A = psub(pmul(Y, Y), B) if rng.random() < 0.5 else padd(pscale(rng.choice([1, 3]), Y), B)
+    elif where == "inner":
+        A = padd(pmul(Y, Y), padd(pmul(B, Y), pconst(rng.choice([-1, -1, 1]))))
+    else:
+        A = pmul(psub(Y, pconst(1)), psub(pmul(B, Y), pconst(1)))
+        extra = ["lc=1", "lin=1;1", "lin=%s;1" % ptext(B)]
+    return mk_case("iso", [x, y], A, [(x, tok)], extra + ["cls=A"]), "A"
+
+
 def small_enough_D(case):
     main = case.split(" | ")[0].split()
     terms = main[2].split("+")
@@ -621,7 +748,13 @@ def gen_cases(rng, n, op="iso", light=False):
     try:
         while len(cases) < n:
             k = rng.random()
-            if k < 0.10:
+            if k > 0.94:
+                c, _ = shape_Z(rng)
+                ok = True
+            elif k > 0.86:
+                c, _ = shape_A(rng)
+                ok = True
+            elif k < 0.10:
                 c, _ = shape_D(rng)
                 ok = small_enough_D(c) and not light
                 if light:
@@ -665,6 +798,10 @@ def tag(case):
         kind = "N"
     if " cls=V" in case:
         kind = "V"
+    if " cls=Z" in case:
+        kind = "Z"
+    if " cls=A" in case:
+        kind = "A"
     return "%s-%s-alg%d" % (main[0], kind, nalg)
 
 
